@@ -194,9 +194,22 @@ class TreeSim(taps.Sim):
         self.ill_ok = False
         if "C05" in judge:
             self.on_sec_allocate = self._c05
+        elif plan.get("twin_scale") or plan.get("twin_flush"):
+            self.on_sec_allocate = self._near_close_watch
+        self.near_close = 0
         self._upd_val = None
         self._was_bankrupt = False
         self.bankrupt_at = None
+
+    def _near_close_watch(self, sec, amount, update, orig):
+        """twin runs: an amount within float noise of -value sits on the close-out shortcut's exact-equality
+        threshold; which side it falls on is rounding noise (threshold band -> the twin is inconclusive)"""
+        v = sec.position * self.feed.price(self.model.t, sec.name) * sec.multiplier
+        if v == v and amount == amount:
+            d = abs(amount + v)
+            if 0 < d < 1e-9 * (abs(amount) + abs(v) + 1e-300) or (d == 0 and amount != 0):
+                self.near_close += 1
+        return orig(sec, amount, update)
 
     # ------------------------------------------------------------------ C05: budget rule at every SecurityBase.allocate
     def _c05(self, sec, amount, update, orig):
@@ -499,6 +512,8 @@ class TreeSim(taps.Sim):
         """Read the whole tree through public properties and compare with the ledger."""
         if self.in_batch:
             return
+        if self.cfg.get("flush") == "lazy":
+            return  # lazy schedule: nothing is read between operations (C08 schedule twins)
         m = self.model
         root = self.root
         self.nobs += 1
@@ -689,7 +704,8 @@ class TreeSim(taps.Sim):
     def run_ops(self):
         for o in self.plan["ops"]:
             try:
-                self.step(o)
+                # (reads performed by the operation itself may refresh the tree: classify what they raise like any other update)
+                self.guarded(lambda: self.step(o), "op " + o["op"])
             except Stop as s:
                 self.stop_reason = s.why
                 return
@@ -704,8 +720,8 @@ class TreeSim(taps.Sim):
         if kind == "tick":
             if self.ti + 1 >= len(self.dates):
                 return
-            if self.in_batch:
-                self.flush("pre-tick flush")
+            if self.in_batch or self.cfg.get("flush") == "lazy":
+                self.flush("pre-tick flush")  # D2: a date is closed by a refresh before the clock moves (as Backtest.run does)
             # ill-formed next date?  (open position meets NaN / non-positive price) -> stop before it
             nt = m.t + 1
             for s in m.secs() if self.cfg.get("ill") != "nan_open" else ():
@@ -755,6 +771,11 @@ class TreeSim(taps.Sim):
         p, sspec = self.pick_strat(o)
         node = self.rnode(p)
         done = False
+        if self.plan.get("twin_flush") and (self.in_batch or root.stale) and (kind in ("rebal", "close", "flatten") or (kind == "alloc" and o.get("mode") in ("close", "close_ulp"))):
+            # flush-schedule twins: an operation that sizes itself from current values is preceded by a refresh in both
+            # schedules (whether an update=False change is seen by a later value read depends on whether the stale flag
+            # happens to be pending - the caller's documented opt-out, not a property of the update machinery)
+            self.flush("pre-read flush")
         if kind == "adjust":
             if o.get("root"):
                 p, sspec = self.strats[0]
@@ -800,6 +821,10 @@ class TreeSim(taps.Sim):
             elif kind == "tspread":
                 if not node.fixed_income:
                     return
+                if self.in_batch:
+                    self.flush("pre-spread flush")  # spread by the children's last computed weights (as op_spread)
+                else:
+                    self.guarded(lambda: self.root.value, "pre-spread refresh")
                 if not self.subtree_tradable(node):
                     return
                 q = o["qfrac"] * 1000.0
@@ -840,6 +865,12 @@ class TreeSim(taps.Sim):
             child = node.children[cname]
             if not self.subtree_tradable(child):
                 return False
+            # capital given to a sub-strategy is spread by its children's *last computed* weights: both flush
+            # schedules refresh first (an un-refreshed spread is the caller's documented opt-out, not a defect)
+            if self.in_batch:
+                self.flush("pre-transfer flush")
+            else:
+                self.guarded(lambda: self.root.value, "pre-transfer refresh")
             self.fire("alloc_strat")
             self.guarded(lambda: node.allocate(amt, child=cname), "alloc_strat")
             return True
